@@ -129,6 +129,7 @@ func checkC13(w *World, r *Report) {
 						continue
 					}
 					pc := sym.PathCond(lp.Header, bl, nil)
+					sawRow := false
 					why := pcCompare(pc, func(a *pcAtom) string {
 						if a.op == token.LSS && a.x != nil && isRangeIndex(a.x) {
 							return "iter"
@@ -142,6 +143,7 @@ func checkC13(w *World, r *Report) {
 								if row, isRow := lk.X.(*ssa.Lookup); isRow {
 									if ld, isLd := row.X.(*ssa.UnOp); isLd {
 										if g, isG := ld.X.(*ssa.Global); isG && g.Object() == types.Object(gv) {
+											sawRow = true
 											return "inrow"
 										}
 									}
@@ -150,7 +152,7 @@ func checkC13(w *World, r *Report) {
 						}
 						return ""
 					}, func(env map[string]bool) bool { return env["iter"] && env["restriction"] && !env["inrow"] })
-					ok = why == ""
+					ok = why == "" && sawRow
 				}
 			}
 		}
